@@ -6,7 +6,7 @@
    validate_or_filter = encoding::validate_or_filter, gen_sb k = the loop body of a single-byte validator as
    GENERATED from private/encoding_validators.h.  Bytes and code points are N, strings are list N. *)
 From CppcmsV Require Import Base.Tac Base.CSem Base.Sweep C14.Defs C14.Spec C14.Proofs C14.Proofs2 C14.Proofs3
-  C14.Proofs4 C14.Proofs5 C14.Proofs6 C14.ProofsW C14.Proofs7 C14.Proofs8 C14.Link C14.LinkT C14.LinkE C14.Defs16 C14.Proofs16 C14.Proofs16b C14.FilterSem C14.LinkF C14.LinkV C14.LinkN C14.ProofsF gen.Gen_C14.
+  C14.Proofs4 C14.Proofs5 C14.Proofs6 C14.ProofsW C14.Proofs7 C14.Proofs8 C14.Link C14.LinkT C14.LinkE C14.Defs16 C14.Proofs16 C14.Proofs16b C14.FilterSem C14.LinkF C14.LinkV C14.LinkN C14.ProofsF C14.DefsW C14.ProofsO C14.LinkW gen.Gen_C14.
 Local Open Scope N_scope.
 
 (* ---------------------------------------------------------------------------------------------------------
@@ -72,13 +72,11 @@ Theorem tie_next : forall html l, bytes_ok l ->
   g_next (rd_of l) (Z.of_nat (length l)) html =
   (code (fst (cppcms_next html l)), Z.of_nat (length l - length (snd (cppcms_next html l)))).
 Proof. exact link_next. Qed.
-Print Assumptions tie_next.
 
 Theorem tie_booster_decode : forall l, bytes_ok l ->
   g_b_decode (rd_of l) (Z.of_nat (length l)) =
   (codeb (fst (booster_decode l)), Z.of_nat (length l - length (snd (booster_decode l)))).
 Proof. exact link_b_decode. Qed.
-Print Assumptions tie_booster_decode.
 
 (* the generated framework decoder returns the value c exactly when the input starts with one UTF8-char of RFC 3629
    denoting c (HTML mode: an HTML-safe one); otherwise it returns utf::illegal *)
@@ -392,12 +390,10 @@ Qed.
 Theorem tie_filter_utf8 : forall repl l, repl < 256 -> forall out0 v0 p0 q0,
   gen_vof_utf8 out0 v0 p0 q0 repl l = fres_obs out0 (vof_utf8 repl l).
 Proof. exact link_vof_utf8. Qed.
-Print Assumptions tie_filter_utf8.
 
 Theorem tie_filter_single_byte : forall k repl l, repl < 256 -> forall out0 c0 p0,
   gen_vof_sb out0 c0 p0 (V_sb k) repl l = fres_obs out0 (vof_sb (V_sb k) repl l).
 Proof. exact link_vof_sb. Qed.
-Print Assumptions tie_filter_single_byte.
 
 (* the generated UTF-8 filter: returns true and leaves the output string alone exactly on HTML-safe UTF-8; otherwise
    returns false and the output is the token-wise image of the input (Tok: an HTML-safe UTF8-char is copied, a well-formed
@@ -445,7 +441,6 @@ Proof. repeat split; vm_compute; reflexivity. Qed.
 Theorem tie_validate_loop : forall html l cnt, (Z.of_N cnt + Z.of_nat (length l) < 2 ^ 64)%Z ->
   gen_validate html l cnt = vres_obs (validate_count html l cnt).
 Proof. exact link_validate. Qed.
-Print Assumptions tie_validate_loop.
 
 Theorem generated_validate_spec : forall html l cnt n, (Z.of_N cnt + Z.of_nat (length l) < 2 ^ 64)%Z ->
   (gen_validate html l cnt = Some (true, Z.of_N n) <->
@@ -455,7 +450,6 @@ Print Assumptions generated_validate_spec.
 
 Theorem tie_validate3_loop : forall html l, gen_validate3 html l = Some (validate html l).
 Proof. exact link_validate3. Qed.
-Print Assumptions tie_validate3_loop.
 
 Example generated_validate_nonvacuous :
   gen_validate true [72;195;169;226;130;172;240;159;152;128;10] 7 = Some (true, 12%Z) /\
@@ -522,6 +516,144 @@ Example form_text_nonvacuous :
   text_widget true [85;84;70;45;56] [226;130;172;240;159;152;128] 0 2 = Some true /\
   text_widget true [85;84;70;45;56] [226;130;172;240;159;152;128] 3 (-1) = Some false.
 Proof. repeat split; vm_compute; reflexivity. Qed.
+
+(* ---------------------------------------------------------------------------------------------------------
+   5c. The text widget as an OBJECT that lives across requests (DefsW: state value_, code_points_, is_set_, is_valid_,
+       low_, high_, validate_charset_; transitions load / clear / value(v) / limits / validate_charset / validate; w_fresh =
+       the constructed widget).  counted st: if the widget is valid, the stored count is what a load of the STORED value
+       computes.  The constructed widget is counted, every load and every setter establishes it whatever state earlier
+       requests left, every operation keeps it -- so it holds after EVERY history -- and validate() then answers what the
+       one-shot text_widget (section 5b) answers for the CURRENT value and limits.  (Before the repair eb17578 the setter
+       kept the count and validity of the last load and the constructor left the count uninitialised; the former
+       counterexamples are the regression Examples at the end of this section.)
+   --------------------------------------------------------------------------------------------------------- *)
+Theorem widget_load_establishes_count : forall st named enc req st', wload st named enc req = Some st' -> counted st'.
+Proof. exact load_establishes_counted. Qed.
+Print Assumptions widget_load_establishes_count.
+
+Theorem widget_setter_establishes_count : forall st v st', wstep st (OSetValue v) = Some st' -> counted st'.
+Proof. exact setter_establishes_counted. Qed.
+Print Assumptions widget_setter_establishes_count.
+
+Theorem widget_count_invariant_over_all_histories : forall ops st st', counted st -> wrun st ops = Some st' -> counted st'.
+Proof. exact history_counted. Qed.
+Print Assumptions widget_count_invariant_over_all_histories.
+
+Theorem widget_count_after_any_history_from_construction : forall ops st', wrun w_fresh ops = Some st' -> counted st'.
+Proof. exact history_from_construction_counted. Qed.
+Print Assumptions widget_count_after_any_history_from_construction.
+
+Theorem widget_validate_depends_only_on_current_value : forall st cs enc, w_valid st = true ->
+  text_load cs enc (w_value st) = Some (true, w_cp st) ->
+  text_widget cs enc (w_value st) (w_low st) (w_high st) = Some (fst (wvalidate st)).
+Proof. exact validate_depends_on_current_value. Qed.
+Print Assumptions widget_validate_depends_only_on_current_value.
+
+Theorem widget_validate_rejects_invalid_and_keeps_value : forall st,
+  (w_valid st = false -> fst (wvalidate st) = false) /\
+  w_value (snd (wvalidate st)) = w_value st /\ w_cp (snd (wvalidate st)) = w_cp st /\ w_set (snd (wvalidate st)) = w_set st.
+Proof. exact (fun st => conj (validate_false_when_invalid st) (validate_keeps_value st)). Qed.
+Print Assumptions widget_validate_rejects_invalid_and_keeps_value.
+
+(* the paths of load, for EVERY previous state: field absent / widget without a name -> "" with count 0; field present in a
+   UTF-8 locale -> the value with its number of scalar values; charset-invalid -> rejected *)
+Theorem widget_load_paths : forall st enc,
+  (forall st', wload st true enc None = Some st' -> w_value st' = [] /\ w_cp st' = 0 /\ w_set st' = true /\ w_valid st' = true) /\
+  (forall req st', wload st false enc req = Some st' -> w_value st' = [] /\ w_cp st' = 0 /\ w_set st' = true /\ w_valid st' = true) /\
+  (forall v cps, w_cs st = true -> lookup enc = Some V_utf8 -> WF v cps -> Forall html_safe cps ->
+     exists st', wload st true enc (Some v) = Some st' /\ w_value st' = v /\ w_cp st' = N.of_nat (length cps) /\
+                 w_set st' = true /\ w_valid st' = true) /\
+  (forall v n st', text_load (w_cs st) enc v = Some (false, n) -> wload st true enc (Some v) = Some st' ->
+     w_valid st' = false /\ fst (wvalidate st') = false).
+Proof.
+  exact (fun st enc => conj (load_absent_resets st enc) (conj (load_nameless_resets st enc)
+           (conj (load_present_utf8 st enc) (load_present_invalid st enc)))).
+Qed.
+Print Assumptions widget_load_paths.
+
+(* the value(v) setter, for EVERY previous state (count and validity of an earlier load, a failed validate()): the widget
+   holds v, is set and valid, and the count is setter_count: the number of code points when charset validation is on and v
+   is HTML-safe UTF-8, the number of BYTES otherwise (the setter has no locale; it does not reject); validate() compares
+   exactly that count with the limits *)
+Theorem widget_validate_after_setter : forall st v st', wstep st (OSetValue v) = Some st' ->
+  w_value st' = v /\ w_valid st' = true /\ w_set st' = true /\ w_cp st' = setter_count (w_cs st) v /\
+  fst (wvalidate st') = text_validate (w_low st) (w_high st) (true, setter_count (w_cs st) v).
+Proof. exact validate_after_setter. Qed.
+Print Assumptions widget_validate_after_setter.
+
+Theorem widget_setter_counts_code_points_of_utf8 : forall st v cps st', w_cs st = true -> WF v cps -> Forall html_safe cps ->
+  wstep st (OSetValue v) = Some st' ->
+  w_cp st' = N.of_nat (length cps) /\ text_widget true utf8n v (w_low st) (w_high st) = Some (fst (wvalidate st')).
+Proof. exact validate_after_setter_utf8. Qed.
+Print Assumptions widget_setter_counts_code_points_of_utf8.
+
+(* a value set by the program that is not valid (HTML-safe) UTF-8, or any value with charset validation off: accepted as it
+   is, measured in bytes -- validate() = the byte-counting widget *)
+Theorem widget_setter_counts_bytes_otherwise : forall st v st', w_cs st = false \/ validate true v = false ->
+  wstep st (OSetValue v) = Some st' ->
+  w_valid st' = true /\ w_cp st' = N.of_nat (length v) /\
+  text_widget false utf8n v (w_low st) (w_high st) = Some (fst (wvalidate st')).
+Proof. exact validate_after_setter_bytes. Qed.
+Print Assumptions widget_setter_counts_bytes_otherwise.
+
+(* a widget that was never loaded holds "" with count 0: validate() = the limits applied to 0 *)
+Theorem widget_never_loaded_validate : forall lo hi st, wstep w_fresh (OLimits lo hi) = Some st ->
+  fst (wvalidate st) = text_validate lo hi (true, 0).
+Proof. exact never_loaded_validate. Qed.
+Print Assumptions widget_never_loaded_validate.
+
+(* tie: the member functions generated from src/form.cpp *)
+Theorem tie_widget_load : forall st named enc req,
+  (forall v, req = Some v -> named = true -> text_load (w_cs st) enc v <> None) ->
+  wload st named enc req =
+  Some (dec_st st (req_value req) []
+          (g_text_load (negb named) (is_none req) (w_cs st) (Z.of_nat (length (req_value req))) (ev_of enc (req_value req)) (enc_st st))).
+Proof. exact link_text_load. Qed.
+Theorem tie_widget_validate : forall st,
+  wvalidate st = (let '(b, g) := g_text_validate (w_low st) (w_high st) (enc_st st) in (b, dec_st st [] [] g)).
+Proof. exact link_text_validate. Qed.
+Theorem tie_widget_setter_clear_ctor : forall st v,
+  wstep st (OSetValue v) = Some (dec_st st [] v (g_text_set_value (w_cs st) (Z.of_nat (length v)) (ev8_of v) (enc_st st))) /\
+  wstep st OClear = Some (dec_st st [] [] (g_widget_clear (enc_st st))) /\
+  existsb (fun n => if list_eq_dec Z.eq_dec n cp_name then true else false) g_text_ctor_inits = true /\
+  g_text_ctor_values = [999; w_low w_fresh; w_high w_fresh; Z.b2z (w_cs w_fresh); Z.of_N (w_cp w_fresh); 999]%Z.
+Proof.
+  exact (fun st v => conj (link_text_set_value st v) (conj (link_widget_clear st)
+           (conj ctor_initialises_code_points (proj1 link_text_ctor_values)))).
+Qed.
+
+Example widget_object_nonvacuous :
+  (* request 1: "abc" with a required-field limit; request 2: field absent -> "", count 0, rejected *)
+  (exists st, wrun w_fresh [OLimits 1 (-1); OLoad true utf8n (Some [97;98;99]); OValidate; OLoad true utf8n None] = Some st /\
+              w_value st = [] /\ w_cp st = 0 /\ fst (wvalidate st) = false) /\
+  (* limits 0..3: five characters rejected, then the field is absent: accepted *)
+  (exists st, wrun w_fresh [OLimits 0 3; OLoad true utf8n (Some [97;98;99;100;101]); OValidate; OClear; OLoad true utf8n None] = Some st /\
+              fst (wvalidate st) = true /\ wget st = Some []) /\
+  counted (mk_wst [226;130;172] 1 true true 0 (-1) true).
+Proof.
+  split; [eexists; split; [vm_compute; reflexivity|repeat split; vm_compute; reflexivity]|].
+  split; [eexists; split; [vm_compute; reflexivity|repeat split; vm_compute; reflexivity]|].
+  intros _. exists true, utf8n. vm_compute. reflexivity.
+Qed.
+
+(* regression: the counterexamples of the former findings form-text-setter-stale-state / form-text-uninitialised-count
+   (commit eb17578 repaired them) now evaluate to the right answers *)
+Example widget_setter_regression :
+  (* required field, loaded with "abc", then value(""): rejected (was: accepted with the stale count 3) *)
+  (exists st, wrun w_fresh [OLimits 1 (-1); OLoad true utf8n (Some [97;98;99]); OSetValue []] = Some st /\
+              w_cp st = 0 /\ fst (wvalidate st) = false) /\
+  (* required field, empty load, then value("hi"): accepted (was: rejected) *)
+  (exists st, wrun w_fresh [OLimits 1 (-1); OLoad true utf8n None; OSetValue [104;105]] = Some st /\
+              w_cp st = 2 /\ fst (wvalidate st) = true) /\
+  (* charset-invalid load, then value("ok"): accepted (was: still rejected) *)
+  (exists st, wrun w_fresh [OLoad true utf8n (Some [255]); OValidate; OSetValue [111;107]] = Some st /\ fst (wvalidate st) = true) /\
+  (* the euro sign set by the program: 1 code point; the byte FF set by the program: valid, 1 byte *)
+  (exists st, wrun w_fresh [OLimits 1 1; OSetValue [226;130;172]] = Some st /\ w_cp st = 1 /\ fst (wvalidate st) = true) /\
+  (exists st, wrun w_fresh [OLimits 1 1; OSetValue [255]] = Some st /\ w_valid st = true /\ w_cp st = 1 /\ fst (wvalidate st) = true) /\
+  (* never loaded, required: rejected; never loaded, limits 0..3: accepted *)
+  (exists st, wrun w_fresh [OLimits 1 (-1)] = Some st /\ fst (wvalidate st) = false) /\
+  (exists st, wrun w_fresh [OLimits 0 3] = Some st /\ fst (wvalidate st) = true).
+Proof. repeat split; eexists; (split; [vm_compute; reflexivity|]); repeat split; vm_compute; reflexivity. Qed.
 
 (* ---------------------------------------------------------------------------------------------------------
    6. Encoding names: two names select the same validator iff they normalise (digits and letters, lower-cased,
@@ -600,23 +732,11 @@ Proof. exact link_sb. Qed.
 Theorem tie_encoding_name_step : forall b, b < 256 ->
   g_enc_name_step (Z.of_N b) = match name_step b with Some x => Z.of_N x | None => (-1)%Z end.
 Proof. exact link_name_step. Qed.
-Print Assumptions tie_utf_valid.
-Print Assumptions tie_is_trail.
-Print Assumptions tie_trail_length.
-Print Assumptions tie_width.
-Print Assumptions tie_booster_is_valid_codepoint.
-Print Assumptions tie_booster_is_trail.
-Print Assumptions tie_booster_is_lead.
-Print Assumptions tie_booster_trail_length.
-Print Assumptions tie_booster_width.
-Print Assumptions tie_single_byte_bodies.
-Print Assumptions tie_encoding_name_step.
 
 (* the validators table: the list generated from validators_set::validators_set() (names, validator as its position in
    Link.all_kinds / 100 for utf8_valid) is the model's enc_table; its keys are pairwise inequivalent under the comparator *)
 Theorem tie_validators_table : g_enc_table = map table_entry enc_table.
 Proof. exact link_enc_table. Qed.
-Print Assumptions tie_validators_table.
 Theorem validators_table_keys_distinct : pairwise_distinct enc_table = true.
 Proof. exact enc_table_keys_distinct. Qed.
 Print Assumptions validators_table_keys_distinct.
@@ -678,25 +798,20 @@ Theorem tie_utf16_surrogate_tests : forall x,
   g_b16_is_first_surrogate (Z.of_N x) = is_first_surrogate x /\ g_b16_is_second_surrogate (Z.of_N x) = is_second_surrogate x /\
   g_b16_trail_length (Z.of_N x) = u16_trail_length x /\ g_b16_width (Z.of_N x) = u16_width x.
 Proof. exact (fun x => conj (link_b16_first x) (conj (link_b16_second x) (conj (link_b16_trail_length x) (link_b16_width x)))). Qed.
-Print Assumptions tie_utf16_surrogate_tests.
 
 Theorem tie_utf16_combine_surrogate : forall w1 w2,
   g_b16_combine_surrogate (Z.of_N w1) (Z.of_N w2) = Z.of_N (combine_surrogate w1 w2).
 Proof. exact link_b16_combine. Qed.
-Print Assumptions tie_utf16_combine_surrogate.
 
 (* the encoders GENERATED from booster/locale/utf.h (utf_traits<char>::encode, utf_traits<char16_t>::encode) are the
    model's encode / u16_encode (which section 3 / 8 prove to be the RFC 3629 / RFC 2781 forms), and no encoding is longer
    than the generated max_width *)
 Theorem tie_booster_encode : forall c, c < 2097152 -> g_b_encode (Z.of_N c) = map Z.of_N (encode c).
 Proof. exact link_b_encode. Qed.
-Print Assumptions tie_booster_encode.
 Theorem tie_encode : forall c, c < 2097152 -> g_encode (Z.of_N c) = map Z.of_N (encode c).
 Proof. exact link_encode. Qed.
-Print Assumptions tie_encode.
 Theorem tie_booster_utf16_encode : forall c, c <= 1114111 -> g_b16_encode (Z.of_N c) = map Z.of_N (u16_encode c).
 Proof. exact link_b16_encode. Qed.
-Print Assumptions tie_booster_utf16_encode.
 Theorem encodings_within_max_width : forall c,
   (Z.of_nat (length (encode c)) <= g_b_max_width)%Z /\ (Z.of_nat (length (u16_encode c)) <= g_b16_max_width)%Z.
 Proof. exact (fun c => conj (encode_le_max_width c) (u16_encode_le_max_width c)). Qed.
@@ -706,7 +821,6 @@ Theorem tie_cppcms_utf16_helpers : forall x w1 w2,
   g_c16_is_first_surrogate (Z.of_N x) = is_first_surrogate x /\ g_c16_is_second_surrogate (Z.of_N x) = is_second_surrogate x /\
   g_c16_combine_surrogate (Z.of_N w1) (Z.of_N w2) = Z.of_N (combine_surrogate w1 w2).
 Proof. exact (fun x w1 w2 => conj (link_c16_first x) (conj (link_c16_second x) (link_c16_combine w1 w2))). Qed.
-Print Assumptions tie_cppcms_utf16_helpers.
 
 Example utf16_nonvacuous :
   u16_decode [55357; 56832; 65] = (Cp 128512, [65]) /\ u16_encode 128512 = [55357; 56832] /\
@@ -716,3 +830,34 @@ Example utf16_nonvacuous :
   utf16_to_utf8 false [72; 55357; 56832; 56832; 8364] = Some (Some [72;240;159;152;128;226;130;172]) /\
   utf16_to_utf8 true [55357; 65] = Some None.
 Proof. repeat split; vm_compute; reflexivity. Qed.
+
+(* Print Assumptions costs about a second per theorem (it reloads the opaque proofs of the closure): the tie_ theorems are
+   printed as one bundle -- the bundle is closed under the global context iff every one of them is *)
+Definition all_ties := (tie_next,
+  tie_booster_decode,
+  tie_filter_utf8,
+  tie_filter_single_byte,
+  tie_validate_loop,
+  tie_validate3_loop,
+  tie_widget_load,
+  tie_widget_validate,
+  tie_widget_setter_clear_ctor,
+  tie_utf_valid,
+  tie_is_trail,
+  tie_trail_length,
+  tie_width,
+  tie_booster_is_valid_codepoint,
+  tie_booster_is_trail,
+  tie_booster_is_lead,
+  tie_booster_trail_length,
+  tie_booster_width,
+  tie_single_byte_bodies,
+  tie_encoding_name_step,
+  tie_validators_table,
+  tie_utf16_surrogate_tests,
+  tie_utf16_combine_surrogate,
+  tie_booster_encode,
+  tie_encode,
+  tie_booster_utf16_encode,
+  tie_cppcms_utf16_helpers).
+Print Assumptions all_ties.
